@@ -41,6 +41,7 @@ MODULES = {
     "dirty_lines": ("terminal/dirty_lines.rs", "terminal::dirty_lines"),
     "terminal": ("terminal.rs", "terminal"),
     "vt": ("vt.rs", "vt"),
+    "kv": (None, "kv"),  # harness support module itself (crate::kv = harness/common.rs)
 }
 
 
@@ -81,13 +82,15 @@ def make_scratch(instances, keep=False):
     for i in instances:
         by_mod.setdefault(i["module"], []).append(i)
     for mod, (src, _path) in MODULES.items():
-        hfile = os.path.join(kdir, mod + ".rs")
+        hfile = os.path.join(kdir, ("common" if mod == "kv" else mod) + ".rs")
         if not os.path.exists(hfile):
             continue
         gen = []
         for i in by_mod.get(mod, []):
             gen.append(render_instance(i))
         open(os.path.join(kdir, mod + "_gen.rs"), "w").write("\n".join(gen) + "\n")
+        if src is None:
+            continue
         with open(os.path.join(crate, "src", src), "a") as f:
             f.write('\n#[cfg(any(kani, kverif_replay))] #[path = "%s"] pub(crate) mod kverif;\n' % hfile)
     with open(os.path.join(crate, "src", "lib.rs"), "a") as f:
@@ -106,6 +109,8 @@ def render_instance(i):
 
 
 def full_name(i):
+    if i["module"] == "kv":
+        return "kv::" + i["name"]
     return "%s::kverif::%s" % (MODULES[i["module"]][1], i["name"])
 
 
@@ -114,6 +119,10 @@ def codegen(root, instances, log):
     crate = os.path.join(root, "crate")
     target = os.path.join(root, "target")
     cmd = ["cargo", "kani", "--only-codegen", "-Z", "stubbing", "--target-dir", target, "--exact"]
+    if not os.environ.get("KV_REACH"):
+        # Kani's per-assertion reachability covers double the number of SAT calls; vacuity is guarded
+        # by the harnesses' own cover witnesses instead (KV_REACH=1 switches them back on)
+        cmd.append("--no-assertion-reach-checks")
     for i in instances:
         cmd += ["--harness", full_name(i)]
     t0 = time.time()
